@@ -208,9 +208,18 @@ def run(ctx, rep):
             continue
         ok = True
         why = []
-        for cal in cals:
-            if cal.endswith("::sum"):
-                why.extend(_sum_only(f, ev, cal))
+        from .c14 import fieldwise_sum_problems
+        todo_, seen_ = [c_ for c_ in cals if c_.endswith("::sum")], set()
+        while todo_:
+            cal = todo_.pop()
+            if cal in seen_:
+                continue
+            seen_.add(cal)
+            why.extend(fieldwise_sum_problems(ev, f, cal)[0])
+            # nested sums (a struct field that is itself summed)
+            tbc_ = ev.tb(cal)
+            if tbc_ is not None:
+                todo_.extend(q_ for q_ in ((c_.get("res") or c_.get("fn") or "") for _, c_ in tbc_.calls()) if q_.endswith("::sum") and q_ in f.fns)
         ok = bool(cals) and any(c.endswith("::sum") for c in cals) and not why
         rep.check(ok, "R5.2", "R5.2|%s" % v, "StatType::%s is accumulated by field-wise `+=` only (commutative)" % v, col,
                   "accumulator of multi-producer StatType::%s is not a pure field-wise sum: %s" % (v, why or cals))
